@@ -311,6 +311,74 @@ impl C18 {
         Ok((per_thread * positions.len()) as u64)
     }
 
+    /// (e'') free-running stress of the stateless entry points with DIFFERENT inputs per thread (hashing, Poseidon,
+    /// seeded key derivation, verification of the thread's own message): sampled
+    fn stress_stateless(&self, per_thread: usize, findings: &Findings) -> Result<u64, String> {
+        let threads = 8usize;
+        // one shared instance; thread t owns message t (proved beforehand, sequentially)
+        let d0 = Req::default_req();
+        let mut rln = RLN::new(DEPTH, Cursor::new(json!({}).to_string())).map_err(|e| e.to_string())?;
+        let s = setup_tree(&mut rln, &d0)?;
+        let mut msgs: Vec<(Vec<u8>, Vec<u8>)> = vec![];
+        for t in 0..threads {
+            let r = Req { signal: format!("signal of thread {t}").into_bytes(), id: big(t as u64), ..d0.clone() };
+            match prove_via(&mut rln, &r, &s, Entry::Tree, false) {
+                PResult::Ok(m) => msgs.push((m, r.signal.clone())),
+                o => return Err(format!("{:?}", o)),
+            }
+        }
+        let rln = Arc::new(rln);
+        let root = codec::fr(&s.root);
+        let call = move |r: &RLN, which: usize, t: usize, msgs: &Vec<(Vec<u8>, Vec<u8>)>, root: &Vec<u8>| -> Vec<u8> {
+            let mut c = Cursor::new(Vec::with_capacity(160));
+            match which {
+                0 => { let _ = rln::public::hash(Cursor::new(vec![t as u8; 10 + 40 * t]), &mut c); c.into_inner() }
+                1 => { let v: Vec<BigUint> = (0..(1 + t % 8)).map(|k| big((t * 1000 + k) as u64)).collect(); let _ = rln::public::poseidon_hash(Cursor::new(codec::vec_fr(&v)), &mut c); c.into_inner() }
+                2 => { let _ = r.seeded_key_gen(Cursor::new(vec![t as u8; 5 + t]), &mut c); c.into_inner() }
+                3 => { let _ = r.seeded_extended_key_gen(Cursor::new(vec![t as u8; 70 + t]), &mut c); c.into_inner() }
+                _ => match r.verify_with_roots(Cursor::new(with_signal(&msgs[t].0, &msgs[t].1)), Cursor::new(root.clone())) { Ok(true) => b"true".to_vec(), Ok(false) => b"false".to_vec(), Err(e) => e.to_string().into_bytes() },
+            }
+        };
+        let msgs = Arc::new(msgs);
+        let root = Arc::new(root);
+        let oracle: Vec<Vec<Vec<u8>>> = (0..threads).map(|t| (0..5).map(|w| call(&rln, w, t, &msgs, &root)).collect()).collect();
+        // the sequential answers against the references where there is one
+        for t in 0..threads {
+            if oracle[t][0] != codec::fr(&keccak::hash_to_field(&vec![t as u8; 10 + 40 * t])) || oracle[t][4] != b"true".to_vec() {
+                findings.report(Discrepancy { key: "C18/sequential/stateless-call/differs-from-reference".into(), case: json!({"kind":"stress2","thread":t}), detail: "hash or verification made alone differs from the reference".into() });
+            }
+        }
+        let oracle = Arc::new(oracle);
+        let barrier = Arc::new(Barrier::new(threads));
+        let hs: Vec<_> = (0..threads).map(|t| {
+            let (r, o, b, m, ro) = (rln.clone(), oracle.clone(), barrier.clone(), msgs.clone(), root.clone());
+            std::thread::spawn(move || {
+                b.wait();
+                let mut bad = [0u64; 5];
+                for it in 0..per_thread {
+                    // verification is three orders of magnitude slower than the rest: one call in 2000
+                    let which = if it % 2000 == 1999 { 4 } else { it % 4 };
+                    if call(&r, which, t, &m, &ro) != o[t][which] {
+                        bad[which] += 1;
+                    }
+                }
+                bad
+            })
+        }).collect();
+        let names = ["hash", "poseidon_hash", "seeded_key_gen", "seeded_extended_key_gen", "verify_with_roots"];
+        for (t, h) in hs.into_iter().enumerate() {
+            match h.join() {
+                Ok(bad) => for (w, n) in bad.iter().enumerate() {
+                    if *n > 0 {
+                        findings.report(Discrepancy { key: format!("C18/overlap/{}/differs-from-sequential", names[w]), case: json!({"kind":"stress2","thread":t,"per_thread":per_thread}), detail: format!("{} overlapping {} calls of thread {t} (own inputs) returned something else than the same call made alone", n, names[w]) });
+                    }
+                },
+                Err(_) => findings.report(Discrepancy { key: "C18/overlap/thread-panicked".into(), case: json!({"kind":"stress2"}), detail: "a thread died".into() }),
+            }
+        }
+        Ok((per_thread * threads) as u64)
+    }
+
     /// (a) loom
     fn loom(&self, q: bool, findings: &Findings) -> Result<(u64, u64, Vec<Value>), String> {
         let bin = std::path::PathBuf::from(std::env::var("ZKV_BIN_DIR").unwrap_or_else(|_| "/verif/target/bin".into())).join("pmtree-loom");
@@ -506,6 +574,7 @@ impl Prop for C18 {
             }
             "loom" => { let _ = self.loom(true, &findings); findings.violations() }
             "relock" => { self.relock(true, &findings); findings.violations() }
+            "stress2" => { let _ = self.stress_stateless(case["per_thread"].as_u64().unwrap_or(40_000) as usize, &findings); findings.violations() }
             "stress" => { let _ = self.stress(case["per_thread"].as_u64().unwrap_or(40_000) as usize, &findings); findings.violations() }
             _ => vec![],
         }
@@ -530,6 +599,7 @@ impl Prop for C18 {
         let nft = self.first_touch(findings)?;
         let nover = self.overlap(if q { 20 } else { 200 }, 4, findings, ctx.seed)?;
         let nstress = self.stress(if q { 40_000 } else { 400_000 }, findings)?;
+        let nstress2 = self.stress_stateless(if q { 40_000 } else { 400_000 }, findings)?;
         ev.set("states", json!(outcomes.len().max(1)));
         ev.set("transitions", json!((n2 * 4 + n3 * 6) as u64));
         ev.set("traces_validated_against_impl", json!(n2 + n3 + schedules));
@@ -539,7 +609,7 @@ impl Prop for C18 {
         ev.set("interleavings", json!({"two_threads_x_two_calls": {"executions": n2, "interleavings_per_assignment": ints2}, "three_threads_x_two_calls": {"executions": n3, "interleavings_per_assignment": ints3}}));
         ev.set("pool_size_comparisons", json!(npool));
         ev.set("reopen_checks", json!(nrelock));
-        ev.set("sampled_rounds", json!({"free_running_overlap_calls": nover, "argument_varying_tree_query_stress_calls": nstress, "first_toucher_processes": nft, "note": "sampled: real parallel overlap is not enumerated, only run; it cannot make the check fail spuriously because the oracle is bit-equality with the sequential result of the same deterministic calls"}));
+        ev.set("sampled_rounds", json!({"free_running_overlap_calls": nover, "argument_varying_tree_query_stress_calls": nstress, "argument_varying_stateless_stress_calls": nstress2, "first_toucher_processes": nft, "note": "sampled: real parallel overlap is not enumerated, only run; it cannot make the check fail spuriously because the oracle is bit-equality with the sequential result of the same deterministic calls"}));
         ev.set("exhaustive", json!(true));
         ev.set("evaluations", json!(n2 + n3 + schedules + npool + nrelock));
         ev.set("distinct_nontrivial", json!(n2 + n3 + shapes));
